@@ -3,7 +3,7 @@
 (* C19: whenever the implementation lets a value of type a be passed or    *)
 (* assigned where b is expected (real = 1), a and b must have the same     *)
 (* ARC-4 layout.  One direction only: a stricter implementation is fine.   *)
-(* Batch entry: [a, b, real, built] - built = 1 when a subroutine call     *)
+(* Batch entry: [a, b, real, built, asg] - built = 1 when a subroutine call*)
 (* passing an a-typed value to a b-typed parameter was accepted at build.  *)
 (* C14 (site = "itxn"): an inner method call is built only with arguments  *)
 (* that fit the parameter of the stated signature (Fits).                  *)
@@ -23,8 +23,11 @@ Fits(e) == CASE e.argk \in {"other", "count"} -> FALSE
              [] OTHER -> e.argk = "bytes" \/ (e.argk = "abi" /\ Layout(e.a) = Layout(e.b))
 ItxnClause(e) == IF e.built = 1 /\ ~Fits(e) THEN "inner-call-built-with-ill-typed-argument"
                  ELSE IF ~Fits(e) THEN "ok-rejected" ELSE IF e.built = 1 THEN "ok-fits" ELSE "ok-fits-but-rejected"
+\* asg = 1 when  b_value.set(a_value)  (copy of the raw encoding; not judged for tuple targets, whose set() takes the
+\* elements) or  b_value.set(<computed value of type a>)  was accepted at build time
 Clause0(e) == IF e.real = 1 /\ ~Same(e) THEN "assignable-but-different-layout"
              ELSE IF e.built = 1 /\ ~Same(e) THEN "call-built-with-different-layout"
+             ELSE IF e.asg = 1 /\ ~Same(e) THEN "assignment-built-with-different-layout"
              ELSE IF Same(e) THEN "ok-same" ELSE "ok-different"
 Clause(e) == IF "site" \in DOMAIN e /\ e.site = "itxn" THEN ItxnClause(e) ELSE Clause0(e)
 Init == tid \in 1..Len(Batch) /\ phase = "start"
